@@ -1071,6 +1071,11 @@ def null_literal(tu, e):
 ORPHAN = {'ctx': set(), 'helpers': set()}     # functions forming the orphaning context of ~Observable / Observer helpers it calls
 
 
+ITER_MUT = ('~Observable iterates over its observer list and calls, for every element, a helper that edits that very list: %s. Erasing the '
+            'current element shifts the remaining ones down, the loop then steps over the element that moved into its place (and runs with '
+            'invalidated iterators): every other observer is skipped, keeps its observee pointer and dangles once the observable is gone')
+
+
 def member_nulls_observee(tu, F, fn, depth=0):
     """does the Observer member fn clear this->observee on every path?  'yes' / 'nonnull' / 'no' (followed, nothing found) /
     'unknown'.  Calls to other Observer members on *this are followed."""
@@ -1088,10 +1093,47 @@ def member_nulls_observee(tu, F, fn, depth=0):
                 if not null_literal(tu, tu.kids(x)[1]):
                     return 'nonnull'
                 found.append(x)
+    # does the member also edit the observable's list (observee->removeObserver(*this), erase on observee->observers)?
+    for x in tu.walk(tu.body(fn)):
+        if x.get('id') and tu.sd(x).get('k') == 'call':
+            q_ = tu.sd(x).get('q', '')
+            if q_ in (REG, UNREG):
+                ORPHAN['mutates'] = '%s() in %s (%s)' % (q_.split('::')[-1], fn['q'].replace(NS, ''), tu.loc(x))
+            elif q_.split('::')[-1] in ('erase', 'push_back', 'pop_back', 'clear', 'insert', 'emplace_back'):
+                s_, obj_, a_ = tu.call_parts(x)
+                o_ = tu.strip(obj_, casts=True) if obj_ is not None else None
+                if o_ is not None and o_.get('kind') == 'MemberExpr' and tu.sd(o_).get('d') == F.observers['id']:
+                    ORPHAN['mutates'] = '%s on the observer list in %s (%s)' % (q_.split('::')[-1], fn['q'].replace(NS, ''), tu.loc(x))
     if any(on_every_path(g, x['id']) for x in found):
         return 'yes'
     if found:
-        return 'unknown'
+        # path-wise: on every path the pointer is assigned null, or the path was taken because it already is null
+        fids = {x['id'] for x in found}
+
+        def says_null(c, truth):
+            c = tu.strip(c, casts=True)
+            while c is not None and c.get('kind') == 'UnaryOperator' and c.get('opcode') == '!':
+                truth = not truth
+                c = tu.strip(tu.kids(c)[0], casts=True)
+            if c is None:
+                return False
+            if c.get('kind') == 'MemberExpr' and tu.sd(c).get('d') == F.observee['id'] and (not tu.kids(c) or tu.is_this(tu.kids(c)[0])):
+                return not truth
+            if c.get('kind') == 'BinaryOperator' and c.get('opcode') in ('==', '!='):
+                l, r = tu.kids(c)
+                for a_, b_ in ((l, r), (r, l)):
+                    a0 = tu.strip(a_, casts=True)
+                    if a0 is not None and a0.get('kind') == 'MemberExpr' and tu.sd(a0).get('d') == F.observee['id'] and null_literal(tu, b_):
+                        return truth == (c['opcode'] == '==')
+            return False
+        ok_all = True
+        for path in cfg_paths(g):
+            nulled = any(e[0] == 'S' and e[1] in fids for blk, taken in path for e in blk.el)
+            known_null = any(taken is not None and blk.cond is not None and len(blk.succ) == 2 and says_null(tu.node(blk.cond), taken == 0)
+                             for blk, taken in path)
+            if not (nulled or known_null):
+                ok_all = False
+        return 'yes' if ok_all else 'unknown'
     sub = []
     for x in tu.walk(tu.body(fn)):
         if x.get('kind') == 'CXXMemberCallExpr' and tu.sd(x).get('rec') == OBSR:
@@ -1124,7 +1166,10 @@ def element_orphaned_by_helper(tu, F, scope, elem_id, is_executed):
             if cf is None or tu.cfg(cf) is None:
                 res.append(('unknown', 'helper %s has no visible body' % tu.sd(x).get('q')))
                 continue
+            ORPHAN['mutates'] = None
             r = member_nulls_observee(tu, F, cf)
+            if r == 'yes' and ORPHAN.get('mutates'):
+                return ('mutates', ORPHAN['mutates'])
             if r == 'yes':
                 if is_executed(x):
                     ORPHAN['helpers'].add(cf['id'])
@@ -1180,6 +1225,8 @@ def for_each_orphans(tu, f, F, al, analysed):
     ORPHAN['ctx'] |= {f['q'], lam['q']}
     if not assigns:
         h = element_orphaned_by_helper(tu, F, tu.body(lam), ps[0]['id'], lambda x: on_every_path(g, x['id']))
+        if h is not None and h[0] == 'mutates':
+            return ('violation', 'list-modified-during-iteration', ITER_MUT % h[1])
         if h is not None and h[0] == 'yes':
             return ('ok', 'std::for_each over the whole observer list with a lambda that ' + h[1])
         if h is not None and h[0] == 'unknown':
@@ -1286,6 +1333,8 @@ def drain_orphans(tu, f, F, al):
             return ('ok', 'drain loop: every entry is taken off the list (back/pop_back) and its observee set to null until the list is empty')
         return ('violation', 'orphan-not-null', '~Observable assigns a non-null value to the observee of its observers')
     h = element_orphaned_by_helper(tu, F, body, elem['id'], lambda x: True)
+    if h is not None and h[0] == 'mutates':
+        return ('undecided', 'the drain loop orphans through a helper that edits the list itself (%s)' % h[1])
     if h is not None and h[0] == 'yes':
         return ('ok', 'drain loop: every entry is taken off the list and ' + h[1])
     if h is not None and h[0] == 'unknown':
@@ -1848,6 +1897,8 @@ def range_for_orphans(tu, f, g, loop, F, al):
             return lvp is not None and ap is not None and g.postdominates(ap, lvp) and not any(
                 z.get('kind') in ('BreakStmt', 'ReturnStmt', 'GotoStmt', 'CXXThrowExpr', 'ContinueStmt') for z in tu.walk(body))
         h = element_orphaned_by_helper(tu, F, body, loopvar['id'], executed)
+        if h is not None and h[0] == 'mutates':
+            return ('violation', 'list-modified-during-iteration', ITER_MUT % h[1])
         if h is not None and h[0] == 'yes':
             return ('ok', 'range-for over the observer list ' + h[1])
         if h is not None and h[0] == 'unknown':
@@ -2431,8 +2482,10 @@ def check_timestamp(ctx, tu_src, tu_drv, lib_tus, analysed_names):
                                       'related to its own increment, so the two allocation sites cannot be compared' % f['q'], t.loc(x))
                     elif a and a[0] in ('rmw', 'write'):
                         bad = True
-                        ctx.violation(R3, 'who-writes TimeStamp::global', '%s modifies the global stamp counter outside nextValue(): stamps handed '
-                                      'out are no longer unique/increasing' % f['q'], t.loc(x),
+                        ctx.violation(R3, 'who-writes TimeStamp::global', '%s modifies the global stamp counter outside nextValue()%s: stamps handed '
+                                      'out are no longer unique/increasing' % (f['q'], (
+                                          ' (it moves the counter back by %d: a value that was already drawn - possibly by another thread in '
+                                          'between - is handed out again)' % -a[1]) if a[0] == 'rmw' and a[1] < 0 else ''), t.loc(x),
                                       key='%s|%s|%s|foreign-write' % (R3, t.fn_file(f), fn_name(f)))
                     elif a and a[0] == 'other':
                         bad = True
